@@ -14,6 +14,8 @@ for name in sorted(os.listdir(os.path.join(HERE, "seeded"))):
     if not os.path.isdir(d) or not any(f in name for f in flts):
         continue
     meta = json.load(open(os.path.join(d, "meta.json")))
+    if meta.get("superseded") or not meta.get("breaks_property"):
+        continue
     prop = meta["breaks_property"]
     wt = f"/tmp/vf-mm-{name}"
     subprocess.run(["git", "-C", "/repo", "worktree", "remove", "--force", wt], capture_output=True)
@@ -55,6 +57,9 @@ with open(os.path.join(HERE, "seeded", f"RESULTS-{tier}.md"), "w") as fh:
             continue
         meta = json.load(open(mp))
         cb = meta.get("caught_by", {}).get(tier)
+        if meta.get("superseded"):
+            fh.write(f"| {name} | {meta['breaks_property']} | superseded | | {meta['superseded'][:160]} |\n")
+            continue
         if not cb:
             fh.write(f"| {name} | {meta['breaks_property']} | not run | | |\n")
             continue
